@@ -31,6 +31,9 @@ func deviationsAt(sc *dscenario, rec sim.Rec) []string {
 	if rec.Class == sim.ClSave {
 		l = append(l, sim.DevNoOK)
 	}
+	if sc.devType == "ASA" && rec.Class == sim.ClChange && !strings.HasPrefix(rec.Text, "configure terminal") {
+		l = append(l, sim.DevWarnErr, sim.DevInfoErr)
+	}
 	if sc.devType == "Linux" && rec.Class == sim.ClChange {
 		l = append(l, sim.DevExit1)
 	}
